@@ -34,14 +34,22 @@ def codec_events(rnd, thorough):
     VENDORS, PRODUCT_TYPES = se.id_tables()
     rec = Rec()
     ids = list(range(0, 65536, 1 if thorough else 17)) + [0, 1, 65535] + [k for k in VENDORS if isinstance(k, int)] + [k for k in PRODUCT_TYPES if isinstance(k, int)]
+    ids += [k for k in VENDORS if isinstance(k, int)]          # every vendor id once more (the list above alternates vendor / product type)
+    n_first = len(ids) - len([k for k in VENDORS if isinstance(k, int)])
     for n, x in enumerate(ids):
-        which = n % 2
+        which = n % 2 if n < n_first else 0
         i = S.identity(fw=rnd.randint(0, 255), serial=rnd.choice([0, 1, 0xFFFFFFFF, 0x0FFFFFFF, 0x10000000, rnd.getrandbits(32), rnd.getrandbits(12)]),
                        vendor=x if which == 0 else rnd.choice([1, 0, 65535, rnd.randint(0, 65535)]),
                        ptype=x if which == 1 else rnd.choice([0, 12, 14, 0xFFFF, rnd.randint(0, 300)]),
                        pcode=rnd.choice([0, 65535, rnd.randint(0, 65535)]), minor=rnd.randint(0, 255), status=(rnd.getrandbits(8), rnd.getrandbits(8)))
         ln = n % 256
         i["name"] = [rnd.choice([0, 32, 65, 255, rnd.randint(0, 255)]) for _ in range(ln)]
+        if n % 5 == 0 and ln >= 2:                    # Latin-1 names whose bytes happen to be well-formed UTF-8 sequences
+            seqs = [[0xC3, 0xA9], [0xC2, 0xB0], [0xE2, 0x82, 0xAC], [0xC3, 0x83, 0xC2, 0xA9], [0xDF, 0xBF]]
+            nm = []
+            while len(nm) < ln:
+                nm += rnd.choice(seqs + [[65], [32]])
+            i["name"] = nm[:ln]
         i["ip"] = [rnd.getrandbits(8) for _ in range(4)]
         i["state"] = rnd.getrandbits(8)
         lst = 1 if n % 3 == 0 else 0
@@ -180,7 +188,7 @@ def session_scenarios(rnd, n):
         ident = S.identity(fw=rnd.choice([16, 20, 32, 255]), serial=rnd.choice([0, 0xFFFFFFFF, 0x0000ABCD, rnd.getrandbits(32)]),
                            vendor=rnd.choice([1, 0, 2, 65535, rnd.randint(0, 2000)]), ptype=rnd.choice([0, 12, 14, 43, 300, 65535]),
                            pcode=rnd.randint(0, 65535), minor=rnd.randint(0, 255), status=(rnd.getrandbits(8), rnd.getrandbits(8)),
-                           name="".join(chr(rnd.choice([65, 49, 32, 0xE9, 47])) for _ in range(rnd.choice([0, 1, 11, 32, 255]))))
+                           name="".join(rnd.choice(["A", "1", " ", "\xe9", "/", "\xc3\xa9", "\xc2\xb0"]) for _ in range(rnd.choice([0, 1, 11, 32, 120]))))
         ident["ip"] = [rnd.getrandbits(8) for _ in range(4)]
         ident["state"] = rnd.getrandbits(8)
         kind = rnd.choice(["cip", "logix"])
@@ -203,6 +211,7 @@ def session_scenarios(rnd, n):
             calls += [{"api": "_env", "intent": {"identity": other}}, {"api": "_list_identity"}, {"api": "get_module_info", "slot": 2}]
         calls.append({"api": "close"})
         sc["calls"] = calls
+        sc["chunk"] = rnd.choice([4096, 4096, 100, 30, 7, 1])           # identity replies arrive in several TCP segments
         scs.append(sc)
     return scs
 
